@@ -20,6 +20,8 @@ M = [
  ("C07-entail-level0", "C07", "nucs/solvers/bound_consistency_algorithm.py", "not_entailed_propagators_stack[top, prop_idx] = False", "not_entailed_propagators_stack[:, prop_idx] = False"),
  ("C08-affine-leq-trigger", "C08", "nucs/propagators/affine_leq_propagator.py", "        elif c > 0:\n            triggers[i] = EVENT_MASK_MIN", "        elif c > 0:\n            triggers[i] = EVENT_MASK_MAX"),
  ("C08-no-add-on-max", "C08", "nucs/solvers/bound_consistency_algorithm.py", "                shr_domains_stack[top, shr_domain_idx, MAX] = shr_domain_max\n                events |= EVENT_MASK_MAX", "                shr_domains_stack[top, shr_domain_idx, MAX] = shr_domain_max"),
+ ("C08-max-leq-weaker", "C08", "nucs/propagators/max_leq_propagator.py", "        x[i, MAX] = min(x[i, MAX], y[MAX])\n        if x[i, MAX] < x[i, MIN]:", "        if min(x[i, MAX], y[MAX]) < x[i, MIN]:"),
+ ("C08-count-eq-weaker", "C08", "nucs/propagators/count_eq_propagator.py", "    if count_max == counter[MIN]:  # we cannot have more domains different from a", "    if count_max == counter[MIN] and count_min > 0:  # we cannot have more domains different from a"),
  ("C09-split-low-alt", "C09", "nucs/heuristics/split_low_dom_heuristic.py", "shr_domains_stack[cp_cur_idx, dom_idx, MIN] = value + 1", "shr_domains_stack[cp_cur_idx, dom_idx, MIN] = value"),
  ("C09-value-events-level", "C09", "nucs/heuristics/value_dom_heuristic.py", "dom_update_stack[cp_cur_idx + 1, DOM_UPDATE_EVENTS] = (\n        EVENT_MASK_MAX_GROUND", "dom_update_stack[cp_cur_idx + 1, DOM_UPDATE_EVENTS] = (\n        EVENT_MASK_MAX"),
  ("C09-backtrack-root", "C09", "nucs/solvers/choice_points.py", "    if stacks_top[0] == 0:\n        return False", "    if stacks_top[0] == 0:\n        return True"),
